@@ -15,6 +15,7 @@
 package ggql
 
 import (
+	"math"
 	"strconv"
 )
 
@@ -37,80 +38,106 @@ func newIntScalar() Type {
 // otherwise an error is returned.
 func (*intScalar) CoerceIn(v interface{}) (interface{}, error) {
 	var err error
+	var i int64
 	switch tv := v.(type) {
 	case nil:
-		// remains nil
+		return nil, nil
 	case int:
-		v = int32(tv)
+		i = int64(tv)
 	case int8:
-		v = int32(tv)
+		i = int64(tv)
 	case int16:
-		v = int32(tv)
+		i = int64(tv)
 	case int32:
-		// ok as is
+		return v, nil
 	case int64:
-		v = int32(tv)
+		i = tv
 	case uint:
-		v = int32(tv)
-	case uint8:
-		v = int32(tv)
-	case uint16:
-		v = int32(tv)
-	case uint32:
-		v = int32(tv)
-	case uint64:
-		v = int32(tv)
-	case float64:
-		// Needed for nested types since the go JSON parser always emits float64 even if an integer.
-		v = int32(tv)
-		if float64(int32(tv)) != tv {
-			err = newCoerceErr(v, "Int")
+		if math.MaxInt32 < tv {
+			return nil, newCoerceErr(v, "Int")
 		}
+		i = int64(tv)
+	case uint8:
+		i = int64(tv)
+	case uint16:
+		i = int64(tv)
+	case uint32:
+		i = int64(tv)
+	case uint64:
+		if math.MaxInt32 < tv {
+			return nil, newCoerceErr(v, "Int")
+		}
+		i = int64(tv)
+	case float64:
+		// The JSON decoder produces float64 for all numbers. Accept only
+		// integral values in range.
+		if tv != math.Trunc(tv) || tv < math.MinInt32 || math.MaxInt32 < tv {
+			return nil, newCoerceErr(v, "Int")
+		}
+		i = int64(tv)
 	default:
-		err = newCoerceErr(v, "Int")
-		v = nil
+		return nil, newCoerceErr(v, "Int")
 	}
-	return v, err
+	if i < math.MinInt32 || math.MaxInt32 < i {
+		err = newCoerceErr(v, "Int")
+		return nil, err
+	}
+	return int32(i), nil
 }
 
 // CoerceOut coerces a result value into a type for the scalar.
 func (t *intScalar) CoerceOut(v interface{}) (interface{}, error) {
-	var err error
+	var i int64
 	switch tv := v.(type) {
 	case nil:
-		// remains nil
+		return nil, nil
 	case float32:
-		v = int32(tv)
+		f := float64(tv)
+		if math.IsNaN(f) || math.Trunc(f) < math.MinInt32 || math.MaxInt32 < math.Trunc(f) {
+			return nil, newCoerceErr(tv, "Int")
+		}
+		i = int64(f)
 	case float64:
-		v = int32(tv)
+		if math.IsNaN(tv) || math.Trunc(tv) < math.MinInt32 || math.MaxInt32 < math.Trunc(tv) {
+			return nil, newCoerceErr(tv, "Int")
+		}
+		i = int64(tv)
 	case int:
-		v = int32(tv)
+		i = int64(tv)
 	case int8:
-		v = int32(tv)
+		i = int64(tv)
 	case int16:
-		v = int32(tv)
+		i = int64(tv)
 	case int32:
-		// ok as is
+		return v, nil
 	case int64:
-		v = int32(tv)
+		i = tv
 	case uint:
-		v = int32(tv)
+		if math.MaxInt32 < tv {
+			return nil, newCoerceErr(tv, "Int")
+		}
+		i = int64(tv)
 	case uint8:
-		v = int32(tv)
+		i = int64(tv)
 	case uint16:
-		v = int32(tv)
+		i = int64(tv)
 	case uint32:
-		v = int32(tv)
+		i = int64(tv)
 	case uint64:
-		v = int32(tv)
+		if math.MaxInt32 < tv {
+			return nil, newCoerceErr(tv, "Int")
+		}
+		i = int64(tv)
 	case string:
-		var i int64
-		if i, err = strconv.ParseInt(tv, 10, 64); err == nil {
-			v = int32(i)
+		var err error
+		if i, err = strconv.ParseInt(tv, 10, 64); err != nil {
+			return nil, err
 		}
 	default:
-		err = newCoerceErr(tv, "Int")
-		v = nil
+		return nil, newCoerceErr(tv, "Int")
 	}
-	return v, err
+	if i < math.MinInt32 || math.MaxInt32 < i {
+		return nil, newCoerceErr(v, "Int")
+	}
+	return int32(i), nil
 }
